@@ -22,7 +22,7 @@ func c19Value(r *rand.Rand, idx int) any {
 		}
 		return later[r.Intn(len(later))]
 	}
-	switch r.Intn(15) {
+	switch r.Intn(16) {
 	case 10: // a longer look-alike key (or a default form) of the same key first, then the plain mention
 		k := pick()
 		return []string{"${" + k + "2},${" + k + "}", "${" + k + ":d},${" + k + "}", "${" + k + ".x}${" + k + "}", "${" + k + "}${" + k + "2}"}[r.Intn(4)]
@@ -31,6 +31,9 @@ func c19Value(r *rand.Rand, idx int) any {
 	case 12: // three mentions with text in between, the same key first and last
 		k := pick()
 		return "${" + k + "} ${" + pick() + "} ${" + k + "}"
+	case 15: // empty defaults
+		k := pick()
+		return []string{"${" + k + ":}", "${" + k + ":}${zz:}", "a${zz:}b", "${" + k + ":}-${" + pick() + ":}"}[r.Intn(4)]
 	case 14: // a closing brace before the first placeholder
 		return []string{"/api/{v}/${" + pick() + "}", "a}b${zz}", "}${nope.x}", "{}${" + pick() + "}"}[r.Intn(4)]
 	case 13: // placeholder-like noise
